@@ -355,6 +355,38 @@ fn rejected<C: Suite>(ctx: &mut Ctx, g0: &Grp<C>, rem: &[Identifier<C>], outside
                 ctx.class(format!("reject/dealer/threshold-{}", if t2 > t { "raised" } else { "lowered" }));
             }
         }
+        // (i') a threshold change by 65536: a refreshing share whose commitment has t-1+65536 entries and whose value lies
+        // on that longer polynomial (the recorded threshold is a u16). Seconds per verification: smallest shapes, fast suites.
+        if n <= 3 && rem.len() == n as usize && C::NAME != "ed448" && C::NAME != "p256" {
+            if let Ok((shares, _)) = C::api_compute_refreshing_shares(g0.pkp.clone(), rem, rng) {
+                let sh = &shares[0];
+                let c = sc_u64::<C>(5);
+                let mut els: Vec<El<C>> = sh.commitment().coefficients().iter().map(|x| x.value()).collect();
+                let base_len = els.len();
+                els.resize(base_len + 65_536, g::<C>() * c);
+                // the stored commitment lacks the (identity) constant term: entry k belongs to x^(k+1)
+                let x = id_sc::<C>(sh.identifier());
+                let mut pw = x;
+                for _ in 0..base_len {
+                    pw = pw * x;
+                }
+                let mut sum = zero::<C>();
+                for _ in 0..65_536u32 {
+                    sum = sum + pw;
+                    pw = pw * x;
+                }
+                let long = frost_core::keys::SecretShare::<C>::new(
+                    *sh.identifier(),
+                    frost_core::keys::SigningShare::<C>::new(sh.signing_share().to_scalar() + c * sum),
+                    frost_core::keys::VerifiableSecretSharingCommitment::<C>::new(els.into_iter().map(frost_core::keys::CoefficientCommitment::<C>::new).collect()),
+                );
+                match C::api_refresh_share(long, &g0.kps[sh.identifier()]) {
+                    Err(e) => ctx.count(&format!("rejected/threshold-change-by-65536/{}", err_name(&e))),
+                    Ok(_) => ctx.viol("bad-refresh-accepted", "dealer/threshold-change-by-65536", d("a refreshing share of a polynomial of degree t-1+65536 (consistent value, commitment of t-1+65536 entries) accepted")),
+                }
+                ctx.class("reject/dealer/threshold-change-by-65536");
+            }
+        }
         // (ii) an unknown participant
         let mut with_out = rem.to_vec();
         with_out.push(outsider);
